@@ -6,6 +6,7 @@ package document
 
 import (
 	"fmt"
+	"strings"
 
 	"github.com/yorkie-team/yorkie/api/converter"
 	"github.com/yorkie-team/yorkie/internal/zzvsym"
@@ -158,7 +159,24 @@ func vSkew(d *Document, name string) {
 // vCheckClone asserts the C08 clause "the copy handed to users shows the
 // same content as the authoritative document".
 func vCheckClone(d *Document, tag string) {
-	zzvsym.Assert(d.Root().Marshal() == d.Marshal(), tag+"-clone-equals-root")
+	root := d.Root()
+	zzvsym.Assert(root.Marshal() == d.Marshal(), tag+"-clone-equals-root")
+	// C07: lengths and lookups by visible index agree with the visible content
+	// (deleted content never influences them)
+	if d.RootObject().Get("arr") != nil {
+		arr := root.GetArray("arr")
+		n := arr.Len()
+		parts := make([]string, 0, n)
+		for i := 0; i < n; i++ {
+			e := arr.Get(i)
+			zzvsym.Assert(e != nil, tag+"-array-get-within-len")
+			if e != nil {
+				parts = append(parts, e.Marshal())
+			}
+		}
+		zzvsym.Assert(arr.Get(n) == nil, tag+"-array-get-at-len-is-nil")
+		zzvsym.Assert("["+strings.Join(parts, ",")+"]" == arr.Marshal(), tag+"-array-len-and-get-agree-with-content")
+	}
 }
 
 func vConverged(tag string, ds ...*Document) {
